@@ -113,7 +113,7 @@ func (encryptor *HashQuery) OnQuery(ctx context.Context, query postgresql.OnQuer
 			logrus.WithError(err).Debugln("Failed to update expression")
 			return query, false, err
 		}
-		paramRef := item.Expr.Rexpr.GetParamRef()
+		paramRef := postgresql.GetComparedParamRef(item.Expr.Rexpr)
 		if paramRef == nil {
 			continue
 		}
@@ -198,7 +198,7 @@ func (encryptor *HashQuery) OnBind(ctx context.Context, parseResult *pg_query.Pa
 			continue
 		}
 
-		paramRef := item.Expr.Rexpr.GetParamRef()
+		paramRef := postgresql.GetComparedParamRef(item.Expr.Rexpr)
 		if paramRef == nil {
 			continue
 		}
